@@ -1126,9 +1126,9 @@ Qed.
 
 Lemma initialize_canonical s mr m s' : initialize s mr = (inl m, s') -> canonical (m_conf m).
 Proof.
-  unfold initialize. intros H.
-  destruct (match la_rules (load_rules s) with [] => _ | _ => _ end) as [rules s3].
-  destruct (build_rule_list _) as [e|rl]; inversion H; subst. apply config_adjust_idem.
+  unfold initialize. intros H. destruct (load_repairs s) as [acc s2].
+  destruct (la_rules acc) as [|x rs];
+    (destruct (build_rule_list _) as [e|rl]; inversion H; subst; apply config_adjust_idem).
 Qed.
 
 Definition live_canonical (st : state) : Prop :=
@@ -1145,11 +1145,14 @@ Qed.
 
 Lemma step_canonical st o : live_canonical st -> live_canonical (fst (step st o)).
 Proof.
-  intros Hst. destruct o as [mr|u f w|u w|k v|k]; cbn [step].
+  intros Hst. destruct o as [mr|u f w|u w|ig|mr|k v|k]; cbn [step].
   - destruct (initialize (st_store st) mr) as [[m|e] s'] eqn:Ei; cbn; [|exact I].
     eapply initialize_canonical; exact Ei.
   - apply step_update_canonical; exact Hst.
   - apply step_update_canonical; exact Hst.
+  - exact I.
+  - destruct (initialize (st_store st) mr) as [[m|e] s'] eqn:Ei; cbn; [|exact I].
+    eapply initialize_canonical; exact Ei.
   - exact Hst.
   - exact Hst.
 Qed.
